@@ -22,6 +22,16 @@ T = [
  ("C34-endwrite-signal-one","C34","at least two goroutines blocked in BeginReadBlocking/BeginWriteBlocking behind an active writer at EndWrite","(*internal/rsync.MultiRSW).EndWrite#ensures[wake]","caught"),
  ("C36-touch-skips-timer-at-zero","C36","exactly one Signal from the unthrottled state followed by idleness (two cooperating edits: touch() and the order in Signal())","(*store/throttler.Throttler).touch#ensures[rearm]","caught"),
  ("C37-provide-shadowed-err","C37","every one of the nRetries+1 Backup attempts failing (sustained fault)","(*store.Provider).Provide#ensures[nil-iff-backup-ok], #loop1-keep[count]","caught"),
+ ("C35-negative-type-table-index","C35","a correctly framed Command whose type field is negative (10-byte varint), indexing a lookup table","(*cluster.Service).handleConn#idx[requestStats[t]] (a first proposed change, nil dereference in checkCommandPermAll, was rejected: the existing system_test fails with it)","caught"),
+ ("C38-wait-on-applied-target","C38","a linearizable read that starts between commit and apply of a non-mutating entry (strong read / noop), nothing mutating after it","(*store.Store).waitForLinearizableRead#ensures[nil-means-all], #assert@s.fsmTarget.Subscribe[order-7-wait-readindex]","caught"),
+ ("C01-orderby-flag-sticks","C01","random() visited after an ORDER BY term in the same statement (window function, upsert after INSERT..SELECT..ORDER BY, LIMIT/OFFSET)","not caught by the C01 check (the rewriter itself is C14, not under contract in this version): MISSED, recorded","missed (C14 not built)"),
+ ("C21-gate-released-in-helper","C21","binary non-vacuum backup of a database larger than one copy buffer with a commit + snapshot landing between two chunks","(*store.Store).Backup#assert@io.Copy[copy-under-gate-or-from-scratch], #assert@os.Open[live-file-under-gate]","caught"),
+ ("C22-load-no-full-needed","C22","write+snapshot, restart as a NEW process (clean fast start), load before any snapshot attempt, write, snapshot, then a node joining","(*store.Store).fsmApply#ensures[load-full] (fsmApply added to the C22 function list after this seed: it was under contract but counted under C38/C01 only)","caught (after routing)"),
+ ("C25-batch-key-not-highest","C25","two or more groups plus a flush marker in one batch at snapshot time, cluster HWM between them, then promotion","(*cdc.Service).mainLoop#assert@cdcjson.MarshalToEnvelopeJSON[key-is-highest-index] (missed at first: mainLoop was not under contract; contract added)","missed, strengthened"),
+ ("C27-update-new-rowid-is-old","C27","an UPDATE that changes the rowid (assigning to rowid or an INTEGER PRIMARY KEY alias)","(*db.DB).RegisterPreUpdateHook$convertFn#assert@return[event-describes-the-change], [row-ids-only-no-values]","caught"),
+ ("C30-named-hex-blob-loses-name","C30","a NAMED parameter whose value is a hex blob literal, at an argument position different from its SQLite index","http.makeParameter#ensures[name-kept] (first reported through shifted return-statement ordinals; the return-anchored assertions were then replaced by layout-independent postconditions)","caught"),
+ ("C32-rejoin-skips-remove","C32","a voter re-joining with the same id, a new address and voter=false","(*store.Store).Join#loop1-keep[every-clash-removed] (missed at first: completeness of the clash scan was not an obligation; added with the engine's iter: anchors)","missed, strengthened"),
+ ("C33-recovery-skips-load-entries","C33","a LOAD entry not covered by any snapshot at recovery time (crash / no snapshot on close)","store.RecoverNode#assert@set:lastIndex[command-entry-not-skipped]","caught"),
 ]
 rows=[]
 for name,prop,needs,by,res in T:
